@@ -50,6 +50,19 @@ ParseFile(bs) ==
   IF ~h.ok THEN [ok |-> FALSE, hdr |-> h, blocks |-> <<>>]
   ELSE LET b == ParseBlocks(bs, h.pos, <<>>) IN [ok |-> b.ok, hdr |-> h, blocks |-> b.blocks]
 
+\* What a reader must do on a prefix bs of a valid file whose header ends before pos: k = number of records of the
+\* blocks whose payload is completely present; clean = the prefix ends exactly at the end of the header or of a block.
+RECURSIVE CutWalk(_, _, _)
+CutWalk(bs, pos, acc) ==
+  IF pos = Len(bs) + 1 THEN [k |-> acc, clean |-> TRUE]
+  ELSE LET c == SmallAt(bs, pos) IN
+       IF ~c.ok THEN [k |-> acc, clean |-> FALSE] ELSE
+       LET n == SmallAt(bs, c.pos) IN
+       IF ~n.ok \/ n.val < 0 \/ ~Have(bs, n.pos, n.val) THEN [k |-> acc, clean |-> FALSE]
+       ELSE IF ~Have(bs, n.pos + n.val, 16) THEN [k |-> acc + c.val, clean |-> FALSE]
+       ELSE CutWalk(bs, n.pos + n.val + 16, acc + c.val)
+
+
 \* file bytes from parts (used by the model-level theorem Parse(FileBytes(h, bs)) = (h, bs))
 EncBytes(b) == VarintOfInt(Len(b)) \o b
 HeaderBytes(meta, sync) ==
